@@ -128,6 +128,7 @@ type E2ECase struct {
 	Dgram   bool   `json:"dgram,omitempty"`    // UDP: the server relays in RFC 1928 datagram mode instead of packet-over-stream
 	Knock   bool   `json:"knock,omitempty"`    // UDP: the destination speaks first (sends a datagram to the relay port) before the client names it
 	Again   int    `json:"again,omitempty"`    // UDP: the client's datagram is sent 1+Again times
+	Rsv     byte   `json:"rsv,omitempty"`      // reserved octet of the request (see Case.Rsv)
 }
 
 func genE2E(t *rapid.T) E2ECase {
@@ -141,6 +142,7 @@ func genE2E(t *rapid.T) E2ECase {
 		Dgram:   rapid.Bool().Draw(t, "dgram"),
 		Knock:   rapid.Bool().Draw(t, "knock"),
 		Again:   rapid.IntRange(0, 2).Draw(t, "again"),
+		Rsv:     rapid.SampledFrom([]byte{0, 0, 0, 0, 1, 0xff}).Draw(t, "rsv"),
 	}
 }
 
@@ -247,7 +249,7 @@ func propE2E(c E2ECase) (o pbt.Outcome) {
 		return append(head, rest...), nil
 	}
 	if !c.UDP {
-		conn.Write(append([]byte{5, 1, 0}, d.raw()...))
+		conn.Write(append([]byte{5, 1, c.Rsv}, d.raw()...))
 		rep, rerr := readReply()
 		time.Sleep(15 * time.Millisecond)
 		if mayReach {
@@ -278,7 +280,7 @@ func propE2E(c E2ECase) (o pbt.Outcome) {
 	if c.AssocDS {
 		assoc = d
 	}
-	conn.Write(append([]byte{5, 3, 0}, assoc.raw()...))
+	conn.Write(append([]byte{5, 3, c.Rsv}, assoc.raw()...))
 	rep, rerr := readReply()
 	if rerr != nil || rep[1] != 0 {
 		// the association itself was refused: nothing can be relayed
